@@ -32,6 +32,7 @@ L['C01'] = dict(modules=['Schc.Properties.C01'], level='proof', technique='Lean 
               T('C01_ipv6_udp_compute', 'full', 'IPv6/UDP(/anything) packets with valid lengths and checksum: round trip with any subset of payload length, UDP length, UDP checksum computed'),
               T('C01_ipv4_udp_compute', 'full', 'IPv4/UDP(/anything) packets with valid total length, header checksum, UDP length, UDP checksum: round trip with any subset of the four computed'),
               T('C01_sctp_compute', 'full', 'SCTP packets with a valid CRC-32c: round trip with the checksum computed'),
+              T('C01_unparser_roundtrip', 'full', 'decompress with an unparser returns the concatenation of what PacketParser.unparse makes of the parsed fields + payload (any unparser; lossless pairings, no compute)'),
               T('C01_end_to_end', 'full', 'from the bytes on the wire: every factory stack, every buffer its parser accepts, manager compress then decompress returns the buffer (C07 joined with C01_manager)')],
     level_text='Proved over the model for all packets/rules/rule sets under the stated hypotheses: fields+payload spell the raw packet (C07), bare functions without the direction argument: descriptors all apply to the packet direction; with the argument (C18_roundtrip, C01_manager): any rule, pairings equal/not-sent, ignore/value-sent, MSB/LSB, match-mapping/mapping-sent with Fits. Compute fields: C01_roundtrip_compute reduces the round trip to the compute functions regenerating the elided values, and C01_ipv6_udp_compute / C01_ipv4_udp_compute discharge that for the IPv6/UDP and IPv4/UDP stacks (any subset of the computable fields, valid packets; concrete valid packets are kernel-checked examples). C01_sctp_compute does the same for the SCTP checksum. So every registered compute function is covered at its stack position.')
 L['C04'] = dict(modules=['Schc.Properties.C04'], level='proof', technique='Lean 4 theorem: matcher = filter by the declarative applicability predicate',
@@ -181,7 +182,10 @@ L['C19'] = dict(modules=['Schc.Properties.C19'], level='proof', technique='Lean 
               T('C19_parse_decided', 'full', 'the syntactic parse terminates (ok or ParserError) with the fuel used'),
               T('C19_option', 'full', 'one option, all delta/length ranges and boundaries, empty and non-empty values'),
               T('C19_field_id', 'full', 'every option number (known or OPTION_UNKNOWN(n)) survives its field id; ids never collide with fixed fields'),
-              T('C19_boundaries', 'test', 'boundary arithmetic 12/13, 268/269 (concrete values)')],
+              T('C19_boundaries', 'test', 'boundary arithmetic 12/13, 268/269 (concrete values)'),
+              T('C19_stack_unparse', 'full', 'IP/UDP/CoAP stack, options in semantic mode: PacketParser.unparse of the parsed fields + payload is the syntactic field sequence + payload (dispatch by parser name proved for every option id, named or OPTION_UNKNOWN(n))'),
+              T('C19_single_unparse', 'full', 'the same for the CoAP parser alone'),
+              T('C19_stack_roundtrip', 'full', 'parse with the semantic stack, compress with any fitting lossless rule, decompress with the parser as unparser: the packet, bit for bit')],
     level_text='Proved for messages of any length with any number of options, any option numbers (known and unknown to the library), any deltas and value lengths, with and without payload, under the hypothesis that no delta/length nibble is the reserved value 15 (RFC 7252 cannot encode such options; an example shows the hypothesis is needed). Values compared as (field id, Buffer) pairs, exactly. Trusted/abstracted: Python re.match and int() on the rendered OPTION_UNKNOWN(n) id are modelled by unknownOptionNumber (checked by the parse stream on unknown options); str(Enum) rendering is read from the running interpreter by the translator. PacketParser.unparse dispatch (parser.py) is covered by correspondence, not by this theorem.')
 for k in L:
     L[k]['level_note'] = NOTE
